@@ -63,7 +63,7 @@ func TestDebugReplay(t *testing.T) {
 			fmt.Printf("res %d %q: err=%q ready=%v rows=%.60q msgs=%v fields=%v\n", i, script[i].SQL, r.Err, r.Ready, r.Rows, r.Messages, r.Fields)
 		}
 	}
-	res := map[string]kernel.Property{"C04": C04{}, "C05": C05{}, "C09": C09{}, "C11": C11{}, "C19": C19{}, "C12": C12{}, "C15": C15{}}[rp.Plan.Prop].Run(t, rp.Plan, true)
+	res := map[string]kernel.Property{"C04": C04{}, "C05": C05{}, "C09": C09{}, "C11": C11{}, "C19": C19{}, "C12": C12{}, "C15": C15{}, "C14": C14{}, "C01": C01{}, "C02": C02{}, "C03": C03{}, "C16": C16{}}[rp.Plan.Prop].Run(t, rp.Plan, true)
 	for _, v := range res.Violations {
 		fmt.Println("VIOL", v.Class(), v.Detail)
 	}
@@ -105,7 +105,7 @@ func TestDebugRepeat(t *testing.T) {
 	if err != nil {
 		t.Fatal(err)
 	}
-	prop := map[string]kernel.Property{"C04": C04{}, "C05": C05{}, "C09": C09{}, "C11": C11{}, "C19": C19{}, "C12": C12{}, "C15": C15{}}[rp.Plan.Prop]
+	prop := map[string]kernel.Property{"C04": C04{}, "C05": C05{}, "C09": C09{}, "C11": C11{}, "C19": C19{}, "C12": C12{}, "C15": C15{}, "C14": C14{}, "C01": C01{}, "C02": C02{}, "C03": C03{}, "C16": C16{}}[rp.Plan.Prop]
 	kernel.Warmup(t)
 	x := uint64(0)
 	for i := 0; i < 2; i++ {
